@@ -6,7 +6,7 @@
    Only statements closed by [exact] + Print Assumptions. *)
 From Coq Require Import ZArith Bool List.
 From Sctp Require Import Gen Sender SenderProofs Shutdown ShutdownProofs ShutdownInvProofs ShutdownGatherProofs
-  ShutdownCrossedProofs ShutdownDataProofs.
+  ShutdownCrossedProofs ShutdownFailingProofs ShutdownDataProofs.
 Import ListNotations.
 Open Scope Z_scope.
 
@@ -91,9 +91,9 @@ Theorem c08_crossed_close : forall s, sd_reach sd_cfg_crossed s ->
 Proof. exact sd_crossed. Qed.
 Print Assumptions c08_crossed_close.
 
-Theorem c08_reachable_set_one_sided : Z.of_nat (sd_set_size sd_cfg_one) = 3153.
+Theorem c08_reachable_set_one_sided : Z.of_nat (sd_set_size sd_cfg_one) = 3222.
 Proof. exact sd_size_one. Qed.
-Theorem c08_reachable_set_crossed : Z.of_nat (sd_set_size sd_cfg_crossed) = 9009.
+Theorem c08_reachable_set_crossed : Z.of_nat (sd_set_size sd_cfg_crossed) = 9621.
 Proof. exact sd_size_crossed. Qed.
 Print Assumptions c08_reachable_set_crossed.
 
@@ -148,14 +148,44 @@ Theorem c08_gather_sack_then_shutdown : forall e moved rtx,
 Proof. exact sd_gather_shutdown_first. Qed.
 Print Assumptions c08_gather_sack_then_shutdown.
 
-(* ---- the clause "Shutdown returned nil => everything written before was delivered" needs the hypothesis that the
-   transport stays up until the peer has closed (sd_cfg_one / sd_cfg_crossed above).  Without it the faithful model
-   refutes the clause: Shutdown waits on closeWriteLoopCh, which the exiting read loop closes as well. *)
-Theorem c08_shutdown_nil_without_delivery_refuted :
-  exists s, sd_reach sd_cfg_failing s /\
-    sd_ret (sd_a s) = SdRetNil /\ sd_infl (sd_a s) = 1 /\ sd_b s = sd_ep0 0 /\ sd_sys_safe s = false.
-Proof. exists sd_d18_state. exact sd_nil_without_delivery_reachable. Qed.
-Print Assumptions c08_shutdown_nil_without_delivery_refuted.
+(* ---- Shutdown's result (model of the code after fix 568b58f).
+   For ALL histories of an endpoint and all queue sizes — deliveries of any chunk, timers, API calls, and the events that
+   close the association under a blocked Shutdown: transport failure (SdEvTransportDown), ABORT from the peer
+   (SdEvRecvAbort), a concurrent Close / Abort call (SdEvCloseCall) — the result is nil only if the shutdown sequence
+   reached its end (shutdownCompleted), and then the pending and the in-flight queue of the caller are empty: with
+   c08_drain_before_shutdown / c08_drained_means_all_cumulatively_acked every chunk accepted before the call was removed by
+   a cumulative acknowledgement of the peer.  (Before the fix the faithful model refuted this: theorem
+   c08_shutdown_nil_without_delivery_refuted of the earlier development, witness sd_d18_schedule below.) *)
+Theorem c08_shutdown_nil_means_completed : forall l e, sd_Inv e -> sd_evs_ok e l ->
+  forall e2 out, In (e2, out) (sd_ep_trace e l) -> sd_ret e2 = SdRetNil ->
+    sd_done e2 = true /\ sd_pend e2 = 0 /\ sd_infl e2 = 0.
+Proof. exact sd_nil_means_completed_hist. Qed.
+Print Assumptions c08_shutdown_nil_means_completed.
+
+(* shutdownCompleted is set by the end of the sequence only: SHUTDOWN ACK received in SHUTDOWN-SENT / SHUTDOWN-ACK-SENT
+   (the peer has seen our SHUTDOWN, which left with empty queues), or SHUTDOWN COMPLETE received in SHUTDOWN-ACK-SENT *)
+Theorem c08_completed_only_by_sequence : forall e ev moved rtx,
+  sd_done (fst (fst (sd_step e ev moved rtx))) = true ->
+  sd_done e = true \/
+  (ev = SdEvRecvShutdownAck /\ sd_down e = false /\ (sd_state e = c_shutdownSent \/ sd_state e = c_shutdownAckSent)) \/
+  (ev = SdEvRecvShutdownComplete /\ sd_down e = false /\ sd_state e = c_shutdownAckSent).
+Proof. exact sd_done_only_by_sequence. Qed.
+Print Assumptions c08_completed_only_by_sequence.
+
+(* the same on the composed finite instance in which transport failure, ABORT and Close may happen at any time, both users
+   may call Shutdown, <= 2 messages queued per side, duplication / reordering / loss (41599 reachable states): in every
+   reachable state a nil result means closed, completed, nothing pending or in flight — the configuration on which the
+   pre-fix model had a reachable counterexample *)
+Theorem c08_shutdown_nil_safe_under_failures : forall s, sd_reach sd_cfg_failing s -> sd_sys_safe s = true.
+Proof. exact sd_failing_safe. Qed.
+Print Assumptions c08_shutdown_nil_safe_under_failures.
+
+(* the pre-fix witness (one message written, Shutdown called, DATA lost, transport fails / peer ABORTs / user Closes): the
+   call now returns ErrShutdownIncomplete; one chunk is still in flight, B's endpoint never handled a packet *)
+Example c08_d18_witness_now_reports_error :
+  sd_run_labels sd_cfg_failing (sd_init 0 0) sd_d18_schedule = Some sd_d18_state /\
+  sd_ret (sd_a sd_d18_state) = SdRetIncomplete /\ sd_infl (sd_a sd_d18_state) = 1 /\ sd_b sd_d18_state = sd_ep0 0.
+Proof. split; [exact sd_d18_run|repeat split; reflexivity]. Qed.
 
 (* ---- non-vacuity: a complete one-sided shutdown with one message queued, and a boundary state for the matrix *)
 Example c08_example_shutdown :
@@ -173,9 +203,9 @@ Example c08_example_shutdown :
 Proof. vm_compute. repeat split; reflexivity. Qed.
 
 Example c08_example_boundary :
-  sd_boundary (mkSdEp c_shutdownPending false false false false false 1 2 sd_ackIdle SdWaiting false).
+  sd_boundary (mkSdEp c_shutdownPending false false false false false false 1 2 sd_ackIdle SdWaiting false).
 Proof.
-  unfold sd_boundary, sd_Inv. cbn [sd_state sd_wsd sd_wsa sd_wsc sd_scp sd_down sd_pend sd_infl].
+  unfold sd_boundary, sd_Inv. cbn [sd_state sd_wsd sd_wsa sd_wsc sd_scp sd_done sd_ret sd_down sd_pend sd_infl].
   unfold c_shutdownPending, c_shutdownSent, c_shutdownAckSent, c_shutdownReceived.
   repeat split; intros; try discriminate; try reflexivity; try (destruct H; discriminate).
 Qed.
